@@ -153,9 +153,11 @@ func (tds *Conn) Close() error {
 
 	var tdsChannels []*Channel
 	// tdsChannels := make([]*Channel, len(tds.tdsChannels))
+	tds.tdsChannelsLock.RLock()
 	for _, channel := range tds.tdsChannels {
 		tdsChannels = append(tdsChannels, channel)
 	}
+	tds.tdsChannelsLock.RUnlock()
 
 	for _, channel := range tdsChannels {
 		if err := channel.Close(); err != nil {
@@ -188,17 +190,19 @@ func (tds *Conn) PacketBodySize() int {
 }
 
 func (tds *Conn) getValidChannelId() (int, error) {
-	curId := int(tds.tdsChannelCurFreeId)
+	// Fetch and increment the ID in one atomic operation - otherwise
+	// two goroutines could receive the same ID.
+	curId := int(atomic.AddUint32(&tds.tdsChannelCurFreeId, 1) - 1)
 
 	if curId > math.MaxUint16 {
 		// TODO create error
 		return 0, fmt.Errorf("exhausted all channel IDs")
 	}
 
-	// increment ID before recursing or returning
-	atomic.AddUint32(&tds.tdsChannelCurFreeId, 1)
-
-	if _, ok := tds.tdsChannels[curId]; ok {
+	tds.tdsChannelsLock.RLock()
+	_, ok := tds.tdsChannels[curId]
+	tds.tdsChannelsLock.RUnlock()
+	if ok {
 		// ChannelId is already used, recurse
 		return tds.getValidChannelId()
 	}
